@@ -1,9 +1,63 @@
-(** Property C05 — theorems only (statement, [exact], [Print Assumptions]).
-    See DESIGN.md section 5 for how each statement renders the property. *)
-From CB Require Import ProofLib Spec Inv_map.
+(** Property C05 - errors are not lost.
+    Theorems only.  [errors_ok] (Results.v) is the statement that the two error clauses of the
+    protocol monitor never fire; see there and Machine.v ([err_due], [check_call], [check_quiescent])
+    for their exact meaning.  combine is the recorded exception (KF1), with its witness. *)
+From CB Require Import ProofLib Spec MonitorSound Results.
+From CB Require Import Inv_map Inv_filter Inv_scan Inv_skip Inv_take Inv_merge Inv_concat Inv_combine Inv_share.
 
-Theorem C05_map (f : val -> val) p :
-  nsinks p = 1 -> resub p = false -> no_nest p = false -> c14 p = false ->
-  forall c : cfg (map_op f), reach p g_std c -> viols (ms c) = [] /\ dead c = false.
-Proof. exact (@map_safe f p). Qed.
+Theorem C05_map (f : val -> val) p (c : cfg (map_op f)) :
+  nsinks p = 1 -> resub p = false -> no_nest p = false -> c14 p = false -> reach p g_std c -> errors_ok (ms c).
+Proof. exact (fun H1 H2 H3 H4 Hc => @errors_ok_nil _ (proj1 (@map_safe f p H1 H2 H3 H4 c Hc))). Qed.
 Print Assumptions C05_map.
+
+Theorem C05_filter (cond : val -> bool) p (c : cfg (filter_op cond)) :
+  nsinks p = 1 -> resub p = false -> no_nest p = false -> c14 p = false -> reach p g_std c -> errors_ok (ms c).
+Proof. exact (fun H1 H2 H3 H4 Hc => @errors_ok_nil _ (proj1 (@filter_safe cond p H1 H2 H3 H4 c Hc))). Qed.
+Print Assumptions C05_filter.
+
+Theorem C05_scan (r : val -> val -> val) (seed : val) p (c : cfg (scan_op r seed)) :
+  nsinks p = 1 -> resub p = false -> no_nest p = false -> c14 p = false -> reach p g_std c -> errors_ok (ms c).
+Proof. exact (fun H1 H2 H3 H4 Hc => @errors_ok_nil _ (proj1 (@scan_safe r seed p H1 H2 H3 H4 c Hc))). Qed.
+Print Assumptions C05_scan.
+
+Theorem C05_skip (max : nat) p (c : cfg (skip_op max)) :
+  nsinks p = 1 -> resub p = false -> no_nest p = false -> c14 p = false -> reach p g_std c -> errors_ok (ms c).
+Proof. exact (fun H1 H2 H3 H4 Hc => @errors_ok_nil _ (proj1 (@skip_safe max p H1 H2 H3 H4 c Hc))). Qed.
+Print Assumptions C05_skip.
+
+Theorem C05_take (max : nat) p (c : cfg (take_op max)) :
+  1 <= max -> nsinks p = 1 -> resub p = false -> no_nest p = false -> c14 p = false -> reach p g_std c -> errors_ok (ms c).
+Proof. exact (fun Hm H1 H2 H3 H4 Hc => @errors_ok_nil _ (proj1 (@take_safe p H1 H2 H3 H4 max Hm c Hc))). Qed.
+Print Assumptions C05_take.
+
+Theorem C05_merge (n : nat) p (c : cfg (merge_op n)) :
+  1 <= n -> nsinks p = 1 -> resub p = false -> no_nest p = false -> c14 p = false -> late_ok p = true -> reach p g_std c -> errors_ok (ms c).
+Proof. exact (fun Hm H1 H2 H3 H4 H5 Hc => @errors_ok_nil _ (proj1 (@merge_safe p H1 H2 H3 H4 H5 n Hm c Hc))). Qed.
+Print Assumptions C05_merge.
+
+Theorem C05_concat (n : nat) p (c : cfg (concat_op n)) :
+  nsinks p = 1 -> resub p = false -> no_nest p = false -> c14 p = false -> late_ok p = false -> reach p g_std c -> errors_ok (ms c).
+Proof. exact (fun H1 H2 H3 H4 H5 Hc => @errors_ok_nil _ (proj1 (@concat_safe n p H1 H2 H3 H4 H5 c Hc))). Qed.
+Print Assumptions C05_concat.
+
+Theorem C05_share p (c : cfg share_op) :
+  resub p = true -> no_nest p = false -> c14 p = false -> late_ok p = false -> reach p g_share c -> errors_ok (ms c).
+Proof. exact (fun H1 H2 H3 H4 Hc => @errors_ok_nil _ (proj1 (@share_safe p H1 H2 H3 H4 c Hc))). Qed.
+Print Assumptions C05_share.
+
+(** combine: the full statement is false of the faithful model (and of the crate: the witness
+    script is replayed on every run, KNOWN-FINDING KF1) *)
+Theorem C05_combine_refuted :
+  all_enabled p_std g_std (cfg0 (combine_op 2)) kf1_script = true
+  /\ In (VErrLost 0) (viols (ms (run p_std (combine_op 2) kf1_script))).
+Proof. exact combine_c05_refuted. Qed.
+Print Assumptions C05_combine_refuted.
+
+(** ... but an Error that does reach the sink is never a forged one, and nothing else goes wrong *)
+Theorem C05_combine_partial (n : nat) p (c : cfg (combine_op n)) :
+  1 <= n -> std p -> reach p g_std c -> forall s, ~ In (VErrChanged s) (viols (ms c)).
+Proof.
+  exact (fun Hn Hs Hc s Hin =>
+           proj1 (Forall_forall _ _) (proj2 (combine_known Hn Hs Hc)) _ Hin).
+Qed.
+Print Assumptions C05_combine_partial.
